@@ -799,6 +799,12 @@ func runHistory(payload string) string {
 			continue
 		}
 		it := its[i]
+		// a call that fails before anything is read: the target is not a pointer (every third item)
+		if i%3 == 2 && it.v.Kind() != reflect.Ptr {
+			if e, p := safely(func() error { return u.Unmarshal(it.v.Interface()) }); p || e == nil {
+				same = false
+			}
+		}
 		target := reflect.New(it.t.rt)
 		e, p := safely(func() error { return u.Unmarshal(target.Interface()) })
 		if p {
@@ -832,6 +838,7 @@ func runHistory(payload string) string {
 		// failing calls in between: into a bool (fails on the first token), and into containers of
 		// bools / an empty struct (fail in the middle of the source's map, slice or struct)
 		var wrong bool
+		safely(func() error { return cl.Clone(it.v.Interface(), wrong) }) // not a pointer: fails before anything is marshalled
 		safely(func() error { return cl.Clone(it.v.Interface(), &wrong) })
 		var wrongM map[string]bool
 		safely(func() error { return cl.Clone(it.v.Interface(), &wrongM) })
